@@ -26,8 +26,8 @@ LABEL_RULES = [
 ]
 FIX_F2 = True   # X models the code after "fix: routine: a new instance waits for every earlier instance to return"
 
-SCEN = {"quick": ["rt_q1", "rt_q2", "rt_q3", "rt_q4", "rt_q5"],
-        "thorough": ["rt_q1", "rt_q2", "rt_q3", "rt_q4", "rt_q5", "rt_t1", "rt_t2", "rt_t3", "rt_t4"]}
+SCEN = {"quick": ["rt_q1", "rt_q2", "rt_q3", "rt_q4", "rt_q5", "rt_q6", "rt_q7"],
+        "thorough": ["rt_q1", "rt_q2", "rt_q3", "rt_q4", "rt_q5", "rt_q6", "rt_q7", "rt_t1", "rt_t2", "rt_t3", "rt_t4"]}
 
 
 def scen_path(n):
@@ -71,7 +71,7 @@ def models(wd, tier, seed):
 
 FAM = dict(driver="routine", specdirs=["routine", "lib"], monitor="RoutinePTrace", property_of=PROPERTY_OF, models=models,
            n_random={"quick": 3000, "thorough": 150000},
-           modes={"quick": [("seq", "seq", 2000)], "thorough": [("seq", "seq", 100000)]},
+           modes={"quick": [("seq", "seq", 2000), ("burst", "burst", 3000, 4)], "thorough": [("seq", "seq", 100000), ("burst", "burst", 200000, 4)]},
            x_specs=["routine/Routine.tla"], p_monitor="routine/RoutineP.tla",
            assumptions=["RoutineP encodes the statements (DESIGN §3 C04/C05/C14 interpretation); exits overtaken by a superseding call before "
                         "they were recorded are not exit statuses; instances entering with a cancelled context are not judged by C14"])
